@@ -15,6 +15,10 @@ CHECKS = {
          "Tail loops over every chain of <=2 tail-position wrappers x 5 call forms x 3 recursion kinds x 3 definers (longer chains sampled) are run for several iteration counts while a host builtin samples the physical stack each turn (must not grow) and a source hook inspects every elided frame (terminal, never TROBlock); loops through handler-bind / ignore-errors / load-string must keep their frames; generated programs are compared across elimination on, off (dormant debugger) and profiler.",
          "Trusts the dormant-debugger configuration as 'elimination off'; twin pairs whose elimination-off run hits a stack/step limit are not judged; tail positions reached through builtins outside the listed wrappers are not covered.",
          "DESIGN.md 4/C02"),
+ "C05": ("fault_enumeration", "invariant monitor at quiescence (after every entry point returns) + twin-runtime replay of completed effects, under injected faults",
+         "Histories of 12-40 top-level evaluations in one runtime through all 15 entry points with 18 fault kinds (errors, every limit, step budget exhausted / context cancelled at an enumerated step index, host panics in five positions, errors in handlers, in-package then failure in a nested load); after every return the stack, pending conditions, evaluator nesting, entry depth, current package and raw evaluation context (hook accessors) are asserted, and a probe program must equal a twin runtime that replays a prefix of the step's effects consistent with the completion probes.",
+         "Effects are atomic statements wrapped in a completion probe; the twin is driven fault-free through LoadString; unexported state is read through build-tag accessors in lisp/verif_on.go.",
+         "DESIGN.md 4/C05"),
 }
 
 ALL = ["C%02d" % i for i in range(1, 21)]
